@@ -1189,3 +1189,498 @@ pub fn gen_bad_string_payload(rng: &mut Rng, fl: Fl) -> Vec<u8> {
     out.extend(s);
     out
 }
+
+// ------------------------------------------------------------------------------------------------
+// deterministic boundary stream (same for every seed): every class below is hit on every run and
+// carries a floor, so that no boundary class fires "by luck"
+// ------------------------------------------------------------------------------------------------
+pub fn k_u8(k: K) -> u8 {
+    match k {
+        K::Bool => 1,
+        K::Int(i) => match i {
+            IK::I8 => 2,
+            IK::I16 => 3,
+            IK::I32 => 4,
+            IK::I64 => 5,
+            IK::I128 => 6,
+            IK::U8 => 7,
+            IK::U16 => 8,
+            IK::U32 => 9,
+            IK::U64 => 10,
+            IK::U128 => 11,
+        },
+        K::String => 12,
+        K::Array => 32,
+        K::Tuple => 33,
+        K::Enum => 34,
+        K::Map => 35,
+        K::Custom(c) => match c {
+            CK::SReference => 0x80,
+            CK::SOwn => 0x90,
+            CK::SDecimal => 0xa0,
+            CK::SPreciseDecimal => 0xb0,
+            CK::SNf => 0xc0,
+            CK::MAddress => 0x80,
+            CK::MBucket => 0x81,
+            CK::MProof => 0x82,
+            CK::MExpression => 0x83,
+            CK::MBlob => 0x84,
+            CK::MDecimal => 0x85,
+            CK::MPreciseDecimal => 0x86,
+            CK::MNf => 0x87,
+            CK::MAddressReservation => 0x88,
+        },
+    }
+}
+
+/// a position of interest inside an encoded payload
+#[derive(Clone, Debug)]
+pub struct Mark {
+    pub off: usize,
+    pub len: usize,
+    pub what: &'static str,
+    pub value: usize,
+}
+pub const SIZE_KINDS: [&str; 7] = [
+    "size.string", "size.tuple", "size.enum", "size.array", "size.map", "size.nf_string", "size.nf_bytes",
+];
+
+fn put_size(out: &mut Vec<u8>, marks: &mut Vec<Mark>, what: &'static str, n: usize) {
+    let l = leb(n);
+    marks.push(Mark { off: out.len(), len: l.len(), what, value: n });
+    out.extend(l);
+}
+fn enc_nf_ir(n: &Nf, out: &mut Vec<u8>, marks: &mut Vec<Mark>) {
+    marks.push(Mark { off: out.len(), len: 1, what: "disc.custom", value: 0 });
+    match n {
+        Nf::Str(s) => {
+            out.push(0);
+            put_size(out, marks, "size.nf_string", s.len());
+            marks.push(Mark { off: out.len(), len: s.len(), what: "body.nf_string", value: 0 });
+            out.extend(s);
+        }
+        Nf::Int(i) => {
+            out.push(1);
+            out.extend(i.to_be_bytes());
+        }
+        Nf::Bytes(b) => {
+            out.push(2);
+            put_size(out, marks, "size.nf_bytes", b.len());
+            out.extend(b);
+        }
+        Nf::Ruid(b) => {
+            out.push(3);
+            out.extend(b);
+        }
+    }
+}
+fn enc_custom_ir(c: &C, out: &mut Vec<u8>, marks: &mut Vec<Mark>) {
+    match c {
+        C::SReference(b) | C::SOwn(b) => out.extend(b),
+        C::SDecimal(b) | C::MDecimal(b) => out.extend(b),
+        C::SPreciseDecimal(b) | C::MPreciseDecimal(b) | C::MBlob(b) => out.extend(b),
+        C::SNf(n) | C::MNf(n) => enc_nf_ir(n, out, marks),
+        C::MAddressStatic(b) => {
+            marks.push(Mark { off: out.len(), len: 1, what: "disc.custom", value: 0 });
+            out.push(0);
+            marks.push(Mark { off: out.len(), len: 1, what: "entity", value: 0 });
+            out.extend(b);
+        }
+        C::MAddressNamed(n) => {
+            marks.push(Mark { off: out.len(), len: 1, what: "disc.custom", value: 0 });
+            out.push(1);
+            out.extend(n.to_le_bytes());
+        }
+        C::MBucket(n) | C::MProof(n) | C::MAddressReservation(n) => out.extend(n.to_le_bytes()),
+        C::MExpression(b) => {
+            marks.push(Mark { off: out.len(), len: 1, what: "expr", value: 0 });
+            out.push(*b as u8);
+        }
+    }
+}
+/// harness-side encoder of the IR that records where the size prefixes, kind bytes, bools etc. are
+/// (used only to place mutations; asserted equal to the implementation's encoding by the callers)
+pub fn enc_ir(v: &V, with_kind: bool, out: &mut Vec<u8>, marks: &mut Vec<Mark>) {
+    if with_kind {
+        marks.push(Mark { off: out.len(), len: 1, what: "kind.value", value: 0 });
+        out.push(k_u8(v.kind()));
+    }
+    match v {
+        V::Bool(b) => {
+            marks.push(Mark { off: out.len(), len: 1, what: "bool", value: 0 });
+            out.push(*b as u8);
+        }
+        V::Int(i, z) => {
+            let raw: u128 = match z {
+                Z::S(x) => *x as u128,
+                Z::U(x) => *x,
+            };
+            out.extend(&raw.to_le_bytes()[..(i.bits() / 8) as usize]);
+        }
+        V::Str(s) => {
+            put_size(out, marks, "size.string", s.len());
+            marks.push(Mark { off: out.len(), len: s.len(), what: "body.string", value: 0 });
+            out.extend(s.as_bytes());
+        }
+        V::Enum(d, f) => {
+            out.push(*d);
+            put_size(out, marks, "size.enum", f.len());
+            for x in f {
+                enc_ir(x, true, out, marks);
+            }
+        }
+        V::Tuple(f) => {
+            put_size(out, marks, "size.tuple", f.len());
+            for x in f {
+                enc_ir(x, true, out, marks);
+            }
+        }
+        V::Array(k, f) => {
+            marks.push(Mark { off: out.len(), len: 1, what: "kind.elem", value: 0 });
+            out.push(k_u8(*k));
+            put_size(out, marks, "size.array", f.len());
+            for x in f {
+                enc_ir(x, false, out, marks);
+            }
+        }
+        V::Map(kk, vk, e) => {
+            marks.push(Mark { off: out.len(), len: 1, what: "kind.elem", value: 0 });
+            out.push(k_u8(*kk));
+            marks.push(Mark { off: out.len(), len: 1, what: "kind.elem", value: 0 });
+            out.push(k_u8(*vk));
+            put_size(out, marks, "size.map", e.len());
+            for (a, b) in e {
+                enc_ir(a, false, out, marks);
+                enc_ir(b, false, out, marks);
+            }
+        }
+        V::Custom(c) => enc_custom_ir(c, out, marks),
+    }
+}
+pub fn payload_with_marks(fl: Fl, v: &V) -> (Vec<u8>, Vec<Mark>) {
+    let mut out = vec![fl.prefix()];
+    let mut marks = vec![];
+    enc_ir(v, true, &mut out, &mut marks);
+    (out, marks)
+}
+
+pub const LEB_VARIANTS: [&str; 3] = ["zero", "cont", "one"];
+/// n written on exactly `width` LEB128 bytes (padded with 0x80 continuation bytes).
+/// variant "zero": natural last byte (0x00 when padded) - a non-minimal encoding of the same size;
+/// "cont": last byte additionally carries the continuation bit; "one": padded last byte is 0x01
+/// (high bits set: a different, larger size on the same width)
+pub fn leb_padded(n: usize, width: usize, variant: &str) -> Option<Vec<u8>> {
+    let minimal = leb(n).len();
+    if width < minimal || width > 10 {
+        return None;
+    }
+    let mut out = Vec::new();
+    for i in 0..width {
+        let digit = ((n >> (7 * i)) & 0x7f) as u8;
+        out.push(if i + 1 < width { digit | 0x80 } else { digit });
+    }
+    let last = width - 1;
+    match variant {
+        "zero" => {
+            if width == minimal {
+                return None; // the canonical encoding itself
+            }
+        }
+        "cont" => out[last] |= 0x80,
+        "one" => {
+            if width == minimal {
+                return None;
+            }
+            out[last] = 0x01;
+        }
+        _ => return None,
+    }
+    Some(out)
+}
+pub const BOUNDARY_SIZES: [usize; 9] =
+    [127, 128, 16383, 16384, 2097151, 2097152, 0x0FFFFFFF, 0x10000000, 0x7FFFFFFF];
+
+fn splice(p: &[u8], m: &Mark, with: &[u8]) -> Vec<u8> {
+    let mut b = p[..m.off].to_vec();
+    b.extend(with);
+    b.extend(&p[m.off + m.len..]);
+    b
+}
+
+/// the value whose payload contains every kind of size prefix / kind byte / bool / custom body once
+pub fn boundary_value(fl: Fl) -> V {
+    let mut f = vec![
+        V::Str("h\u{e9}".to_string()),
+        V::Enum(1, vec![V::Bool(true)]),
+        V::Array(K::Int(IK::U8), vec![V::Int(IK::U8, Z::U(1)), V::Int(IK::U8, Z::U(2))]),
+        V::Array(K::String, vec![V::Str("a".to_string())]),
+        V::Map(K::Int(IK::U8), K::Bool, vec![(V::Int(IK::U8, Z::U(1)), V::Bool(false))]),
+    ];
+    match fl {
+        Fl::Basic => {}
+        Fl::Scrypto => {
+            f.push(V::Custom(C::SNf(Nf::Str(b"a_1".to_vec()))));
+            f.push(V::Custom(C::SNf(Nf::Bytes(vec![1, 2]))));
+            f.push(V::Custom(C::SNf(Nf::Int(7))));
+            f.push(V::Custom(C::SReference([3; 30])));
+        }
+        Fl::Manifest => {
+            f.push(V::Custom(C::MNf(Nf::Str(b"a_1".to_vec()))));
+            f.push(V::Custom(C::MNf(Nf::Bytes(vec![1, 2]))));
+            let mut node = [3u8; 30];
+            node[0] = entity_bytes()[0];
+            f.push(V::Custom(C::MAddressStatic(node)));
+            f.push(V::Custom(C::MAddressNamed(5)));
+            f.push(V::Custom(C::MExpression(true)));
+            f.push(V::Custom(C::MBucket(9)));
+        }
+    }
+    V::Tuple(f)
+}
+pub fn size_kinds(fl: Fl) -> Vec<&'static str> {
+    match fl {
+        Fl::Basic => SIZE_KINDS[..5].to_vec(),
+        _ => SIZE_KINDS.to_vec(),
+    }
+}
+
+/// class names the deterministic stream must produce for flavour fl (static, independent of the
+/// payload walk: used for the floors)
+pub fn expected_boundary_classes(fl: Fl) -> Vec<String> {
+    let mut v = vec![];
+    for what in size_kinds(fl) {
+        for w in 2..=5 {
+            for var in LEB_VARIANTS {
+                v.push(format!("leb.{}.w{}.{}", what, w, var));
+            }
+        }
+        v.push(format!("leb.{}.w1.cont", what));
+        for n in BOUNDARY_SIZES {
+            v.push(format!("lebsize.{}.{}", what, n));
+        }
+    }
+    for (len, widths) in [(128usize, [3usize, 4, 5]), (16384, [4, 5, 6])] {
+        for w in widths {
+            for var in LEB_VARIANTS {
+                v.push(format!("leb.long{}.w{}.{}", len, w, var));
+            }
+        }
+        v.push(format!("leb.long{}.valid", len));
+        v.push(format!("leb.long{}.valid", len - 1));
+    }
+    for c in [
+        "bool.invalid", "truncate.each", "trailing", "kind.unknown", "kind.elem_wrong", "prefix.wrong",
+        "utf8.invalid", "utf8.valid_edge", "depth.each_limit", "valid",
+    ] {
+        v.push(c.to_string());
+    }
+    match fl {
+        Fl::Basic => {}
+        Fl::Scrypto => {
+            v.push("custom.nf_invalid".to_string());
+            v.push("disc.custom_invalid".to_string());
+        }
+        Fl::Manifest => {
+            v.push("custom.nf_invalid".to_string());
+            v.push("disc.custom_invalid".to_string());
+            v.push("custom.entity_invalid".to_string());
+            v.push("custom.expr_invalid".to_string());
+        }
+    }
+    v
+}
+
+/// (input bytes, depth limit, class)
+pub fn boundary_cases(fl: Fl) -> Vec<(Vec<u8>, usize, String)> {
+    let mut out: Vec<(Vec<u8>, usize, String)> = vec![];
+    let v = boundary_value(fl);
+    let (p, marks) = payload_with_marks(fl, &v);
+    out.push((p.clone(), 64, "valid".into()));
+    // --- size prefixes: every position kind x width x variant, and boundary sizes
+    let mut seen: Vec<&'static str> = vec![];
+    for m in marks.iter().filter(|m| m.what.starts_with("size.")) {
+        if seen.contains(&m.what) {
+            continue;
+        }
+        seen.push(m.what);
+        for w in 1..=5usize {
+            for var in LEB_VARIANTS {
+                if let Some(enc) = leb_padded(m.value, w, var) {
+                    out.push((splice(&p, m, &enc), 64, format!("leb.{}.w{}.{}", m.what, w, var)));
+                }
+            }
+        }
+        for n in BOUNDARY_SIZES {
+            out.push((splice(&p, m, &leb(n)), 64, format!("lebsize.{}.{}", m.what, n)));
+        }
+    }
+    // --- long strings: 2- and 3-byte minimal prefixes padded to the wider widths
+    for len in [128usize, 16384] {
+        for l in [len - 1, len] {
+            let v = V::Str("a".repeat(l));
+            let (lp, _) = payload_with_marks(fl, &v);
+            out.push((lp, 64, format!("leb.long{}.valid", l)));
+        }
+        let v = V::Str("a".repeat(len));
+        let (lp, lm) = payload_with_marks(fl, &v);
+        let m = lm.iter().find(|m| m.what == "size.string").unwrap();
+        let minimal = m.len;
+        for w in (minimal + 1)..=(minimal + 3) {
+            for var in LEB_VARIANTS {
+                if let Some(enc) = leb_padded(len, w, var) {
+                    out.push((splice(&lp, m, &enc), 64, format!("leb.long{}.w{}.{}", len, w, var)));
+                }
+            }
+        }
+    }
+    // --- bools
+    for m in marks.iter().filter(|m| m.what == "bool") {
+        for b in [2u8, 0x80, 0xff] {
+            out.push((splice(&p, m, &[b]), 64, "bool.invalid".into()));
+        }
+    }
+    // --- every truncation, trailing bytes
+    for n in 0..p.len() {
+        out.push((p[..n].to_vec(), 64, "truncate.each".into()));
+    }
+    for t in [vec![0u8], vec![0x21, 0x00]] {
+        let mut b = p.clone();
+        b.extend(t);
+        out.push((b, 64, "trailing".into()));
+    }
+    // --- kind bytes
+    let kb = kind_bytes(fl);
+    for m in marks.iter().filter(|m| m.what.starts_with("kind.")) {
+        for b in [0u8, 13, 31, 36, 0x7f, 0x89, 0xc1, 0xff] {
+            if !kb.contains(&b) {
+                out.push((splice(&p, m, &[b]), 64, "kind.unknown".into()));
+            }
+        }
+    }
+    for m in marks.iter().filter(|m| m.what == "kind.elem") {
+        for b in &kb {
+            if *b != p[m.off] {
+                out.push((splice(&p, m, &[*b]), 64, "kind.elem_wrong".into()));
+            }
+        }
+    }
+    for b in [0u8, 0x5b, 0x5c, 0x4d, 0xff] {
+        if b != fl.prefix() {
+            let mut q = p.clone();
+            q[0] = b;
+            out.push((q, 64, "prefix.wrong".into()));
+        }
+    }
+    // --- UTF-8: every malformed / edge body in a string value
+    let bodies: [(&[u8], bool); 16] = [
+        (&[0xc0, 0x80], false),
+        (&[0xc1, 0xbf], false),
+        (&[0xc2, 0x80], true),
+        (&[0xdf, 0xbf], true),
+        (&[0xe0, 0x80, 0x80], false),
+        (&[0xe0, 0xa0, 0x80], true),
+        (&[0xed, 0xa0, 0x80], false),
+        (&[0xed, 0x9f, 0xbf], true),
+        (&[0xef, 0xbf, 0xbf], true),
+        (&[0xf0, 0x80, 0x80, 0x80], false),
+        (&[0xf0, 0x90, 0x80, 0x80], true),
+        (&[0xf4, 0x8f, 0xbf, 0xbf], true),
+        (&[0xf4, 0x90, 0x80, 0x80], false),
+        (&[0xf5, 0x80, 0x80, 0x80], false),
+        (&[0xe2, 0x82], false),
+        (&[0x80], false),
+    ];
+    for (body, ok) in bodies {
+        for (pre, post) in [(&b""[..], &b""[..]), (&b"ab"[..], &b"z"[..])] {
+            let mut s = pre.to_vec();
+            s.extend(body);
+            s.extend(post);
+            let mut q = vec![fl.prefix(), 12];
+            q.extend(leb(s.len()));
+            q.extend(s);
+            out.push((q, 64, if ok { "utf8.valid_edge".into() } else { "utf8.invalid".into() }));
+        }
+    }
+    // --- custom values
+    for m in marks.iter().filter(|m| m.what == "disc.custom") {
+        for b in [4u8, 5, 0xff] {
+            out.push((splice(&p, m, &[b]), 64, "disc.custom_invalid".into()));
+        }
+    }
+    if fl != Fl::Basic {
+        let nfk = if fl == Fl::Scrypto { 0xc0u8 } else { 0x87 };
+        let long = vec![b'a'; 65];
+        let strs: [&[u8]; 6] = [b"", b"a-b", b"a b", "\u{e9}".as_bytes(), &long[..], &[0xff]];
+        for s in strs {
+            let mut q = vec![fl.prefix(), nfk, 0];
+            q.extend(leb(s.len()));
+            q.extend(s);
+            out.push((q, 64, "custom.nf_invalid".into()));
+        }
+        for n in [0usize, 65, 200] {
+            let mut q = vec![fl.prefix(), nfk, 2];
+            q.extend(leb(n));
+            q.extend(vec![7u8; n]);
+            out.push((q, 64, "custom.nf_invalid".into()));
+        }
+    }
+    if fl == Fl::Manifest {
+        for m in marks.iter().filter(|m| m.what == "entity") {
+            for b in [0u8, 1, 0xff] {
+                if EntityType::from_repr(b).is_none() {
+                    out.push((splice(&p, m, &[b]), 64, "custom.entity_invalid".into()));
+                }
+            }
+        }
+        for m in marks.iter().filter(|m| m.what == "expr") {
+            for b in [2u8, 0xff] {
+                out.push((splice(&p, m, &[b]), 64, "custom.expr_invalid".into()));
+            }
+        }
+    }
+    // --- every depth limit around the value's depth
+    for md in 0..=(v.depth() + 1) {
+        out.push((p.clone(), md, "depth.each_limit".into()));
+    }
+    out
+}
+
+/// size codec unit cases: (bytes fed to read_size, class) for every boundary size, width and variant
+pub fn read_size_inputs() -> Vec<(Vec<u8>, String)> {
+    let mut out = vec![];
+    let sizes: Vec<usize> = [0usize, 1, 2, 126]
+        .into_iter()
+        .chain(BOUNDARY_SIZES.into_iter())
+        .chain([129, 300, 16385, 2097153, 0x0FFFFFFE, 0x0FFFFFFF + 2])
+        .collect();
+    for n in sizes {
+        out.push((leb(n), format!("readsize.canonical.w{}", leb(n).len())));
+        for w in 1..=6usize {
+            for var in LEB_VARIANTS {
+                if let Some(mut e) = leb_padded(n, w, var) {
+                    if var == "cont" {
+                        e.push(0x01); // something for the continuation to continue into
+                    }
+                    out.push((e, format!("readsize.w{}.{}", w, var)));
+                }
+            }
+        }
+    }
+    for t in [vec![], vec![0x80u8], vec![0x80, 0x80], vec![0xff, 0xff, 0xff], vec![0x80, 0x80, 0x80, 0x80]] {
+        out.push((t, "readsize.truncated".into()));
+    }
+    out
+}
+pub fn expected_read_size_classes() -> Vec<String> {
+    let mut v = vec!["readsize.truncated".to_string()];
+    for w in 1..=5 {
+        v.push(format!("readsize.canonical.w{}", w));
+    }
+    for w in 2..=6 {
+        for var in LEB_VARIANTS {
+            v.push(format!("readsize.w{}.{}", w, var));
+        }
+    }
+    v.push("readsize.w1.cont".to_string());
+    v
+}
